@@ -122,7 +122,7 @@ Definition accept_self (n : named) (k : selfk) : bool :=
   | NStruct, SelfVal => true | NStruct, SelfRef => false
   | NZst, _ => false            (* methods on ZST structs are not implemented *)
   | NOutStruct, _ => false
-  | NEnum, _ => true
+  | NEnum, SelfVal => true | NEnum, SelfRef => false   (* every backend passes enums by value *)
   end.
 (* DiplomatWrite: only the last parameter is taken as the writer *)
 Definition accept_params (fl : flags) (ps : list ty) : bool :=
